@@ -6,10 +6,32 @@ From Coq Require Import List Bool Arith Lia Permutation Sorted.
 From Atlas Require Import Plan.SortModel Plan.SortDfs.
 Import ListNotations.
 
-(** * What a change does, by table name *)
-Definition nm (c : change) : nat := t_name (table_of c).
-Definition adds (c : change) : list nat := match c with AddTable t _ => [t_name t] | _ => [] end.
-Definition drops (c : change) : list nat := match c with DropTable t _ => [t_name t] | _ => [] end.
+(** * Table identity: the pair (schema, name), coded injectively *)
+Lemma qcode_inj s n s' n' : qcode s n = qcode s' n' -> s = s' /\ n = n'.
+Proof.
+  unfold qcode. intros H.
+  assert (Ha : s + n = s' + n') by nia.
+  rewrite Ha in H. split; lia.
+Qed.
+
+Lemma qn_inj a b : qn a = qn b -> t_name a = t_name b /\ t_schema a = t_schema b.
+Proof. unfold qn. intros H. apply qcode_inj in H. tauto. Qed.
+
+Lemma qn_name a b : qn a = qn b -> t_name a = t_name b.
+Proof. intros H. apply (proj1 (qn_inj a b H)). Qed.
+
+(* SameTable: equal name and schema = the same database table *)
+Lemma same_table_qn a b : same_table a b = true <-> qn a = qn b.
+Proof.
+  unfold same_table. rewrite andb_true_iff, !Nat.eqb_eq. split.
+  - intros [Hn Hs]. unfold qn. rewrite Hn, Hs. reflexivity.
+  - intros H. apply qn_inj in H. tauto.
+Qed.
+
+(** * What a change does, by table (schema, name) *)
+Definition nm (c : change) : nat := qn (table_of c).
+Definition adds (c : change) : list nat := match c with AddTable t _ => [qn t] | _ => [] end.
+Definition drops (c : change) : list nat := match c with DropTable t _ => [qn t] | _ => [] end.
 Definition tc_added (tc : tchange) : list fkey :=
   match tc with AddFK f => [f] | ModifyFK _ to => [to] | _ => [] end.
 (* the foreign keys a change declares *)
@@ -25,15 +47,15 @@ Definition tc_removes (s : nat) (tc : tchange) : bool :=
 Definition removes (child s : nat) (c : change) : bool :=
   match c with
   | AddTable _ _ => false
-  | DropTable t _ => t_name t =? child
-  | ModifyTable t tcs => (t_name t =? child) && existsb (tc_removes s) tcs
+  | DropTable t _ => qn t =? child
+  | ModifyTable t tcs => (qn t =? child) && existsb (tc_removes s) tcs
   end.
 (* the symbols of the live keys a table change drops, and the keys (child, symbol) a change drops explicitly *)
 Definition tc_rm (tc : tchange) : list nat :=
   match tc with DropFK f => [f_sym f] | ModifyFK from _ => [f_sym from] | _ => [] end.
 Definition rm_keys (c : change) : list (nat * nat) :=
-  match c with ModifyTable t tcs => map (pair (t_name t)) (flat_map tc_rm tcs) | _ => [] end.
-Definition fk_entry (child : nat) (f : fkey) : nat * nat * nat := (child, f_sym f, t_name (f_ref f)).
+  match c with ModifyTable t tcs => map (pair (qn t)) (flat_map tc_rm tcs) | _ => [] end.
+Definition fk_entry (child : nat) (f : fkey) : nat * nat * nat := (child, f_sym f, qn (f_ref f)).
 
 Lemma replay_app l1 l2 c :
   replay (l1 ++ l2) c = match replay l1 c with None => None | Some c1 => replay l2 c1 end.
@@ -69,12 +91,12 @@ Lemma step_tabs c x c1 n :
   (In n (c_tabs c1) <-> (In n (c_tabs c) \/ In n (adds x)) /\ ~ In n (drops x)).
 Proof.
   destruct x as [t fks|t fks|t tcs]; simpl; intros H.
-  - destruct (mem (t_name t) (c_tabs c)); [discriminate|].
+  - destruct (mem (qn t) (c_tabs c)); [discriminate|].
     destruct (forallb _ fks); inversion H; subst; simpl. tauto.
-  - destruct (negb (mem (t_name t) (c_tabs c))); [discriminate|].
+  - destruct (negb (mem (qn t) (c_tabs c))); [discriminate|].
     destruct (existsb _ (c_fks c)); inversion H; subst; simpl.
     rewrite remove_nat_in. intuition.
-  - destruct (mem (t_name t) (c_tabs c)); [|discriminate].
+  - destruct (mem (qn t) (c_tabs c)); [|discriminate].
     rewrite (replay_tcs_tabs _ _ _ _ H). tauto.
 Qed.
 
@@ -130,16 +152,16 @@ Lemma step_fks c x c1 e :
   (exists f, In f (added_fks x) /\ e = fk_entry (nm x) f).
 Proof.
   destruct x as [t fks|t fks|t tcs]; simpl; intros H He.
-  - destruct (mem (t_name t) (c_tabs c)); [discriminate|].
+  - destruct (mem (qn t) (c_tabs c)); [discriminate|].
     destruct (forallb _ fks); inversion H; subst; simpl in *.
     apply in_app_or in He. destruct He as [He|He]; [left; split; [exact He|reflexivity]|].
     apply in_map_iff in He. destruct He as [f [Hf Hin]]. right. exists f. split; [exact Hin|].
     rewrite <- Hf. reflexivity.
-  - destruct (negb (mem (t_name t) (c_tabs c))); [discriminate|].
+  - destruct (negb (mem (qn t) (c_tabs c))); [discriminate|].
     destruct (existsb _ (c_fks c)); inversion H; subst; simpl in *.
     apply filter_In in He. destruct He as [He Hn]. left. split; [exact He|].
     apply negb_true_iff in Hn. rewrite Nat.eqb_sym. exact Hn.
-  - destruct (mem (t_name t) (c_tabs c)); [|discriminate].
+  - destruct (mem (qn t) (c_tabs c)); [|discriminate].
     destruct (replay_tcs_fks _ _ _ _ e H He) as [[H1 H2]|H2]; [left|right; exact H2].
     split; [exact H1|]. rewrite Nat.eqb_sym. exact H2.
 Qed.
@@ -198,7 +220,7 @@ Proof.
 Qed.
 
 Lemma removes_rm_keys child s x :
-  removes child s x = true -> (exists t fks, x = DropTable t fks /\ t_name t = child) \/ In (child, s) (rm_keys x).
+  removes child s x = true -> (exists t fks, x = DropTable t fks /\ qn t = child) \/ In (child, s) (rm_keys x).
 Proof.
   destruct x as [t fks|t fks|t tcs]; simpl; intros H; [discriminate| |].
   - left. exists t, fks. split; [reflexivity|apply Nat.eqb_eq; exact H].
@@ -210,7 +232,7 @@ Qed.
 (* a ModifyTable replays when the parents of the keys it declares exist and every key it drops is live
    and is dropped once *)
 Lemma replay_tcs_ok t : forall tcs c,
-  (forall f, In f (flat_map tc_added tcs) -> In (t_name (f_ref f)) (c_tabs c)) ->
+  (forall f, In f (flat_map tc_added tcs) -> In (qn (f_ref f)) (c_tabs c)) ->
   NoDup (flat_map tc_rm tcs) ->
   (forall s, In s (flat_map tc_rm tcs) -> exists p, In (t, s, p) (c_fks c)) ->
   exists c', replay_tcs t c tcs = Some c'.
@@ -219,14 +241,14 @@ Proof.
   assert (Hstep : exists c1, replay_tc t c tc = Some c1 /\ c_tabs c1 = c_tabs c /\
             (forall s p, In (t, s, p) (c_fks c) -> ~ In s (tc_rm tc) -> In (t, s, p) (c_fks c1))).
   { destruct tc as [f|f|from to|k]; simpl.
-    - assert (Hm : mem (t_name (f_ref f)) (c_tabs c) = true)
+    - assert (Hm : mem (qn (f_ref f)) (c_tabs c) = true)
         by (apply mem_In; apply Hf; simpl; left; reflexivity).
       rewrite Hm. eexists; split; [reflexivity|]. split; [reflexivity|].
       intros s p H _. simpl. apply in_or_app. left. exact H.
     - destruct (Hl (f_sym f)) as [p Hp]; [simpl; left; reflexivity|].
       rewrite (fk_live_true t (f_sym f) c p Hp). eexists; split; [reflexivity|]. split; [reflexivity|].
       intros s q H Hs. simpl. apply filter_key_in. split; [exact H|]. simpl. intros [_ E]. apply Hs. left. symmetry. exact E.
-    - assert (Hm : mem (t_name (f_ref to)) (c_tabs c) = true)
+    - assert (Hm : mem (qn (f_ref to)) (c_tabs c) = true)
         by (apply mem_In; apply Hf; simpl; left; reflexivity).
       rewrite Hm. destruct (Hl (f_sym from)) as [p Hp]; [simpl; left; reflexivity|].
       rewrite (fk_live_true t (f_sym from) c p Hp). eexists; split; [reflexivity|]. split; [reflexivity|].
@@ -245,21 +267,21 @@ Proof.
 Qed.
 
 Lemma step_add_ok st t fks :
-  ~ In (t_name t) (c_tabs st) ->
-  (forall f, In f fks -> t_name (f_ref f) = t_name t \/ In (t_name (f_ref f)) (c_tabs st)) ->
+  ~ In (qn t) (c_tabs st) ->
+  (forall f, In f fks -> qn (f_ref f) = qn t \/ In (qn (f_ref f)) (c_tabs st)) ->
   exists c', replay1 st (AddTable t fks) = Some c'.
 Proof.
   intros Hn Hf. unfold replay1. apply mem_false in Hn. rewrite Hn.
-  assert (Hall : forallb (fun f => mem (t_name (f_ref f)) (t_name t :: c_tabs st)) fks = true).
+  assert (Hall : forallb (fun f => mem (qn (f_ref f)) (qn t :: c_tabs st)) fks = true).
   { apply forallb_forall. intros f Hin. apply mem_In. destruct (Hf f Hin) as [->|H]; [left; reflexivity|right; exact H]. }
   rewrite Hall. eexists; reflexivity.
 Qed.
 
 Lemma step_modify_ok st t tcs :
-  In (t_name t) (c_tabs st) ->
-  (forall f, In f (flat_map tc_added tcs) -> In (t_name (f_ref f)) (c_tabs st)) ->
+  In (qn t) (c_tabs st) ->
+  (forall f, In f (flat_map tc_added tcs) -> In (qn (f_ref f)) (c_tabs st)) ->
   NoDup (flat_map tc_rm tcs) ->
-  (forall s, In s (flat_map tc_rm tcs) -> exists p, In (t_name t, s, p) (c_fks st)) ->
+  (forall s, In s (flat_map tc_rm tcs) -> exists p, In (qn t, s, p) (c_fks st)) ->
   exists c', replay1 st (ModifyTable t tcs) = Some c'.
 Proof.
   intros Ht Hf Hn Hl. simpl. apply mem_In in Ht. rewrite Ht. apply replay_tcs_ok; assumption.
@@ -289,12 +311,12 @@ Lemma step_fks_lower c x c1 e :
   replay1 c x = Some c1 -> In e (c_fks c) -> removes (fst (fst e)) (snd (fst e)) x = false -> In e (c_fks c1).
 Proof.
   destruct x as [t fks|t fks|t tcs]; simpl; intros H He Hr.
-  - destruct (mem (t_name t) (c_tabs c)); [discriminate|].
+  - destruct (mem (qn t) (c_tabs c)); [discriminate|].
     destruct (forallb _ fks); inversion H; subst; simpl. apply in_or_app. left. exact He.
-  - destruct (negb (mem (t_name t) (c_tabs c))); [discriminate|].
+  - destruct (negb (mem (qn t) (c_tabs c))); [discriminate|].
     destruct (existsb _ (c_fks c)); inversion H; subst; simpl.
     apply filter_In. split; [exact He|]. apply negb_true_iff. rewrite Nat.eqb_sym. exact Hr.
-  - destruct (mem (t_name t) (c_tabs c)); [|discriminate].
+  - destruct (mem (qn t) (c_tabs c)); [|discriminate].
     apply (replay_tcs_fks_lower _ _ _ _ e H He). rewrite Nat.eqb_sym. exact Hr.
 Qed.
 
@@ -310,12 +332,12 @@ Proof.
 Qed.
 
 Lemma step_drop_ok st t fks :
-  In (t_name t) (c_tabs st) ->
-  (forall e, In e (c_fks st) -> snd e = t_name t -> fst (fst e) = t_name t) ->
+  In (qn t) (c_tabs st) ->
+  (forall e, In e (c_fks st) -> snd e = qn t -> fst (fst e) = qn t) ->
   exists c', replay1 st (DropTable t fks) = Some c'.
 Proof.
   intros Ht Hf. simpl. apply mem_In in Ht. rewrite Ht. simpl.
-  assert (He : existsb (fun e => (snd e =? t_name t) && negb (fst (fst e) =? t_name t)) (c_fks st) = false).
+  assert (He : existsb (fun e => (snd e =? qn t) && negb (fst (fst e) =? qn t)) (c_fks st) = false).
   { destruct (existsb _ (c_fks st)) eqn:E; [|reflexivity]. exfalso.
     apply existsb_exists in E. destruct E as [e [Hin He]].
     apply andb_true_iff in He. destruct He as [H1 H2].
@@ -350,7 +372,7 @@ Proof.
     + apply (IH pre x post y eq_refl Hy).
 Qed.
 
-Lemma in_adds_iff n l : In n (flat_map adds l) <-> exists t fks, In (AddTable t fks) l /\ t_name t = n.
+Lemma in_adds_iff n l : In n (flat_map adds l) <-> exists t fks, In (AddTable t fks) l /\ qn t = n.
 Proof.
   rewrite in_flat_map. split.
   - intros [x [Hx Hn]]. destruct x as [t fks| |]; simpl in Hn; try (destruct Hn; fail).
@@ -358,7 +380,7 @@ Proof.
   - intros [t [fks [Hx <-]]]. exists (AddTable t fks). split; [exact Hx|left; reflexivity].
 Qed.
 
-Lemma in_drops_iff n l : In n (flat_map drops l) <-> exists t fks, In (DropTable t fks) l /\ t_name t = n.
+Lemma in_drops_iff n l : In n (flat_map drops l) <-> exists t fks, In (DropTable t fks) l /\ qn t = n.
 Proof.
   rewrite in_flat_map. split.
   - intros [x [Hx Hn]]. destruct x as [|t fks|]; simpl in Hn; try (destruct Hn; fail).
@@ -375,17 +397,17 @@ Record split_ok (l : list change) (c : cat) : Prop := {
   so_drops : NoDup (flat_map drops l);
   so_drops_old : forall n, In n (flat_map drops l) -> In n (c_tabs c);
   (* a declared foreign key never points at a table the plan drops *)
-  so_nodrop : forall x f, In x l -> In f (added_fks x) -> ~ In (t_name (f_ref f)) (flat_map drops l);
+  so_nodrop : forall x f, In x l -> In f (added_fks x) -> ~ In (qn (f_ref f)) (flat_map drops l);
   (* its parent pre-exists, or is created before, or is the created table itself *)
   so_fk : forall pre x post f, l = pre ++ x :: post -> In f (added_fks x) ->
-    In (t_name (f_ref f)) (c_tabs c) \/ In (t_name (f_ref f)) (flat_map adds pre) \/ adds x = [t_name (f_ref f)];
+    In (qn (f_ref f)) (c_tabs c) \/ In (qn (f_ref f)) (flat_map adds pre) \/ adds x = [qn (f_ref f)];
   (* a modified table pre-exists or is created before, and is not dropped before *)
   so_mod : forall pre t tcs post, l = pre ++ ModifyTable t tcs :: post ->
-    ~ In (t_name t) (flat_map drops pre) /\
-    (In (t_name t) (c_tabs c) \/ In (t_name t) (flat_map adds pre));
+    ~ In (qn t) (flat_map drops pre) /\
+    (In (qn t) (c_tabs c) \/ In (qn t) (flat_map adds pre));
   (* every live foreign key from another table to a dropped table is removed before *)
   so_drop : forall pre p fks post e, l = pre ++ DropTable p fks :: post -> In e (c_fks c) ->
-    snd e = t_name p -> fst (fst e) <> t_name p ->
+    snd e = qn p -> fst (fst e) <> qn p ->
     exists y, In y pre /\ removes (fst (fst e)) (snd (fst e)) y = true;
   (* a key that is dropped explicitly (DROP FOREIGN KEY / re-pointed) is live initially and dropped once *)
   so_rm_nodup : NoDup (flat_map rm_keys l);
@@ -404,11 +426,11 @@ Section Split.
     destruct (IH (x :: post) El) as [st Hst].
     rewrite replay_app, Hst. simpl.
     assert (Hx : In x l) by (rewrite El; apply in_or_app; right; left; reflexivity).
-    assert (Hnodrop_fk : forall f, In f (added_fks x) -> ~ In (t_name (f_ref f)) (flat_map drops pre)).
+    assert (Hnodrop_fk : forall f, In f (added_fks x) -> ~ In (qn (f_ref f)) (flat_map drops pre)).
     { intros f Hf Hd. apply (so_nodrop l c H x f Hx Hf).
       rewrite El, flat_map_app. apply in_or_app. left. exact Hd. }
     assert (Hfk_live : forall f, In f (added_fks x) ->
-              adds x = [t_name (f_ref f)] \/ In (t_name (f_ref f)) (c_tabs st)).
+              adds x = [qn (f_ref f)] \/ In (qn (f_ref f)) (c_tabs st)).
     { intros f Hf. destruct (so_fk l c H pre x post f El Hf) as [H1|[H1|H1]].
       - right. apply (after_tabs_lower pre c st _ Hst); [left; exact H1|apply Hnodrop_fk; exact Hf].
       - right. apply (after_tabs_lower pre c st _ Hst); [right; exact H1|apply Hnodrop_fk; exact Hf].
@@ -418,7 +440,7 @@ Section Split.
       assert (E : exists c', replay1 st (AddTable t fks) = Some c').
       { apply step_add_ok.
         - intros Hin. apply (after_tabs_upper pre c st _ Hst) in Hin. destruct Hin as [Hin|Hin].
-          + apply (so_adds_new l c H (t_name t)); [|exact Hin].
+          + apply (so_adds_new l c H (qn t)); [|exact Hin].
             rewrite El, flat_map_app. apply in_or_app. right. simpl. left. reflexivity.
           + pose proof (so_adds l c H) as Hadds. rewrite El, flat_map_app in Hadds. simpl in Hadds.
             apply NoDup_remove_2 in Hadds. apply Hadds. apply in_or_app. left. exact Hin.
@@ -432,7 +454,7 @@ Section Split.
           + left. apply (so_drops_old l c H). rewrite El, flat_map_app. apply in_or_app. right. simpl. left. reflexivity.
           + pose proof (so_drops l c H) as Hdrops. rewrite El, flat_map_app in Hdrops. simpl in Hdrops.
             apply NoDup_remove_2 in Hdrops. intros Hin. apply Hdrops. apply in_or_app. left. exact Hin.
-        - intros e He Hp. destruct (Nat.eq_dec (fst (fst e)) (t_name t)) as [Heq|Hne]; [exact Heq|exfalso].
+        - intros e He Hp. destruct (Nat.eq_dec (fst (fst e)) (qn t)) as [Heq|Hne]; [exact Heq|exfalso].
           destruct (after_fks pre c st e Hst He) as [[H1 H2]|[y [f [Hy [Hf Hfe]]]]].
           + destruct (so_drop l c H pre t fks post e El H1 Hp Hne) as [y [Hy Hrm]].
             rewrite (H2 y Hy) in Hrm. discriminate.
@@ -450,14 +472,14 @@ Section Split.
         - apply NoDup_app_r in Hnd. apply NoDup_app_l in Hnd.
           apply (NoDup_map_inv _ _ Hnd).
         - intros s Hs.
-          assert (Hk : In (t_name t, s) (map (pair (t_name t)) (flat_map tc_rm tcs))) by (apply in_map; exact Hs).
-          destruct (so_rm_live l c H (t_name t, s)) as [p Hp].
+          assert (Hk : In (qn t, s) (map (pair (qn t)) (flat_map tc_rm tcs))) by (apply in_map; exact Hs).
+          destruct (so_rm_live l c H (qn t, s)) as [p Hp].
           { rewrite El, flat_map_app. apply in_or_app. right. simpl. apply in_or_app. left. exact Hk. }
           exists p. apply (after_fks_lower pre c st _ Hst Hp). simpl.
-          intros y Hy. destruct (removes (t_name t) s y) eqn:Er; [exfalso|reflexivity].
+          intros y Hy. destruct (removes (qn t) s y) eqn:Er; [exfalso|reflexivity].
           destruct (removes_rm_keys _ _ _ Er) as [[t' [fks' [-> Hn]]]|Hky].
           + apply Hdr. apply in_drops_iff. exists t', fks'. split; [exact Hy|exact Hn].
-          + assert (Hkp : In (t_name t, s) (flat_map rm_keys pre)) by (apply in_flat_map; exists y; split; assumption).
+          + assert (Hkp : In (qn t, s) (flat_map rm_keys pre)) by (apply in_flat_map; exists y; split; assumption).
             clear -Hnd Hkp Hk. induction (flat_map rm_keys pre) as [|a l0 IHl]; [destruct Hkp|].
             simpl in Hnd. inversion Hnd; subst. destruct Hkp as [->|Hkp].
             * apply H1. apply in_or_app. right. apply in_or_app. left. exact Hk.
@@ -484,18 +506,18 @@ Section Safe.
      or is created by a change of strictly smaller rank (or, stated directly, before it),
      or is the created table itself *)
   Hypothesis Hfk : forall x f, In x l -> In f (added_fks x) ->
-    ~ In (t_name (f_ref f)) (flat_map drops l) /\
-    (In (t_name (f_ref f)) (c_tabs c) \/
-     ((exists y, In y l /\ adds y = [t_name (f_ref f)] /\ r y < r x) \/
-      (forall pre post, l = pre ++ x :: post -> In (t_name (f_ref f)) (flat_map adds pre))) \/
-     (adds x = [t_name (f_ref f)])).
+    ~ In (qn (f_ref f)) (flat_map drops l) /\
+    (In (qn (f_ref f)) (c_tabs c) \/
+     ((exists y, In y l /\ adds y = [qn (f_ref f)] /\ r y < r x) \/
+      (forall pre post, l = pre ++ x :: post -> In (qn (f_ref f)) (flat_map adds pre))) \/
+     (adds x = [qn (f_ref f)])).
   (* a modified table pre-exists or is created at a strictly smaller rank; every drop has a larger rank *)
   Hypothesis Hmod : forall t tcs, In (ModifyTable t tcs) l ->
     (forall y, In y l -> is_drop y = true -> r (ModifyTable t tcs) < r y) /\
-    (In (t_name t) (c_tabs c) \/ exists y, In y l /\ adds y = [t_name t] /\ r y < r (ModifyTable t tcs)).
+    (In (qn t) (c_tabs c) \/ exists y, In y l /\ adds y = [qn t] /\ r y < r (ModifyTable t tcs)).
   (* every live foreign key from another table to a dropped table is removed at a strictly smaller rank *)
   Hypothesis Hdrop : forall p fks e, In (DropTable p fks) l -> In e (c_fks c) ->
-    snd e = t_name p -> fst (fst e) <> t_name p ->
+    snd e = qn p -> fst (fst e) <> qn p ->
     exists y, In y l /\ removes (fst (fst e)) (snd (fst e)) y = true /\ r y < r (DropTable p fks).
 
   Hypothesis Hrm_nodup : NoDup (flat_map rm_keys l).
